@@ -177,3 +177,113 @@ func appStateFacts(repo string) (fields, writes []string, err error) {
 	sort.Strings(writes)
 	return
 }
+
+// blockCtxFacts: every use of the per-block context (`<x>.BlockContext()`) in the consensus layer —
+// the only state besides the state tree that survives from DeliverTx to EndBlock — as
+// "file:function: statement", and for every call of a helper that WRITES it from a transaction
+// handler (RegisterRuntimeForFinalization) whether a failing return (`return … err`-like, i.e. a return
+// whose last result is not the literal nil) follows the call in the same function: a failed
+// transaction must not leave anything in the block context (property C08).
+func blockCtxFacts(repo string) (uses, writerCalls []string, err error) {
+	root := filepath.Join(repo, "go", "consensus", "cometbft")
+	err = filepath.Walk(root, func(p string, info os.FileInfo, e error) error {
+		if e != nil {
+			return e
+		}
+		if info.IsDir() || !strings.HasSuffix(p, ".go") || strings.HasSuffix(p, "_test.go") || strings.Contains(filepath.Base(p), "verif") {
+			return nil
+		}
+		src, e := os.ReadFile(p)
+		if e != nil {
+			return e
+		}
+		fset := token.NewFileSet()
+		f, e := parser.ParseFile(fset, p, src, 0)
+		if e != nil {
+			return e
+		}
+		rel, _ := filepath.Rel(filepath.Join(repo, "go"), p)
+		m := &asFile{fset, f, src, filepath.ToSlash(rel)}
+		for _, d := range f.Decls {
+			fd, ok := d.(*ast.FuncDecl)
+			if !ok || fd.Body == nil {
+				continue
+			}
+			name := fd.Name.Name
+			if _, t := asRecvType(fd); t != "" {
+				name = t + "." + name
+			}
+			if fd.Name.Name == "BlockContext" {
+				continue // the accessors themselves
+			}
+			// uses, by innermost simple statement
+			var stack []ast.Node
+			ast.Inspect(fd.Body, func(n ast.Node) bool {
+				if n == nil {
+					stack = stack[:len(stack)-1]
+					return true
+				}
+				stack = append(stack, n)
+				if c, ok := n.(*ast.CallExpr); ok {
+					if se, ok := c.Fun.(*ast.SelectorExpr); ok && se.Sel.Name == "BlockContext" && len(c.Args) == 0 {
+						var st ast.Node = c
+						for i := len(stack) - 1; i >= 0; i-- {
+							switch stack[i].(type) {
+							case *ast.AssignStmt, *ast.ExprStmt, *ast.ReturnStmt, *ast.RangeStmt, *ast.IfStmt, *ast.DeclStmt:
+								st = stack[i]
+								i = -1
+							}
+						}
+						txt := m.text(st)
+						if r, ok := st.(*ast.RangeStmt); ok {
+							txt = "for … range " + m.text(r.X)
+						}
+						if i, ok := st.(*ast.IfStmt); ok {
+							txt = "if " + m.text(i.Cond)
+							if i.Init != nil {
+								txt = "if " + m.text(i.Init) + "; " + m.text(i.Cond)
+							}
+						}
+						uses = append(uses, fmt.Sprintf("%s:%s: %s", m.dir, name, txt))
+					}
+				}
+				return true
+			})
+			// writer helper calls
+			ast.Inspect(fd.Body, func(n ast.Node) bool {
+				c, ok := n.(*ast.CallExpr)
+				if !ok {
+					return true
+				}
+				callee := ""
+				switch fn := c.Fun.(type) {
+				case *ast.SelectorExpr:
+					callee = fn.Sel.Name
+				case *ast.Ident:
+					callee = fn.Name
+				}
+				if callee != "RegisterRuntimeForFinalization" || fd.Name.Name == callee {
+					return true
+				}
+				failingAfter := false
+				ast.Inspect(fd.Body, func(k ast.Node) bool {
+					if _, ok := k.(*ast.FuncLit); ok {
+						return false
+					}
+					if r, ok := k.(*ast.ReturnStmt); ok && r.Pos() > c.End() && len(r.Results) > 0 {
+						if id, ok := r.Results[len(r.Results)-1].(*ast.Ident); !ok || id.Name != "nil" {
+							failingAfter = true
+						}
+					}
+					return true
+				})
+				writerCalls = append(writerCalls, fmt.Sprintf("%s:%s: %s failing-return-after=%v", m.dir, name, m.text(c), failingAfter))
+				return true
+			})
+		}
+		return nil
+	})
+	sort.Strings(uses)
+	sort.Strings(writerCalls)
+	return
+}
